@@ -265,8 +265,8 @@ def cases(tier):
     cs = []
     thorough = tier == 'thorough'
     for n in (1, 2, 3, 4):
-        cs.append(Case('index-%dd' % n, body_index, backend='INT', params={'n': n}, timeout_s=1200,
-                       query_timeout_ms=300000))
+        cs.append(Case('index-%dd' % n, body_index, backend='INT', params={'n': n}, timeout_s=3000,
+                       query_timeout_ms=900000))
         for k in (1, 2, 3, 4):
             if abs(n - k) > 1 and not thorough:
                 continue
